@@ -941,11 +941,15 @@ public:
     /// iterators and references may be invalidated.
     constexpr auto swap(basic_inplace_string& other) noexcept -> void
     {
-        auto const thisSize = size();
-        auto const maxSize  = static_cast<etl::ptrdiff_t>(etl::max(thisSize, other.size()));
+        auto const thisSize  = size();
+        auto const otherSize = other.size();
+        auto const maxSize   = static_cast<etl::ptrdiff_t>(etl::max(thisSize, otherSize));
 
-        etl::swap_ranges(begin(), etl::next(begin(), maxSize + 1), other.begin()); // includes null-terminator
-        unsafe_set_size(other.size());
+        // Only the characters are exchanged: in the small layout (Capacity < 16) the element after the
+        // last character of a full string is the size byte, and both sizes (and terminators) are
+        // written below anyway.
+        etl::swap_ranges(begin(), etl::next(begin(), maxSize), other.begin());
+        unsafe_set_size(otherSize);
         other.unsafe_set_size(thisSize);
     }
 
